@@ -132,6 +132,7 @@ func cmdCheck(args []string) int {
 	units := append([]string{}, spec.Units...)
 	if tier == "thorough" {
 		units = append(units, spec.Thorough...)
+		units = append(units, spec.ThoroughUnits...)
 	}
 	for _, u := range units {
 		p, k := splitUnit(u)
